@@ -24,6 +24,15 @@ PROP = "C14"
 TYPES = {"tail": SyntheticTail, "exit": SyntheticExit, "fill": SyntheticFill, "return": SyntheticReturn}
 
 
+WIDE = (
+    ((1, 2, 3), (4,), (4,), (4,), ()),
+    ((1, 2, 3), (), (), ()),
+    ((1,), (2, 3, 4), (5,), (5,), (5,), ()),
+    ((1, 2), (3, 4, 5), (3, 4, 5), (), (), ()),
+    ((1, 2, 3, 4), (5,), (5,), (), (), ()),
+)
+
+
 def arcs_of(scfg):
     return {k: tuple(b._jump_targets) for k, b in scfg.graph.items()}
 
@@ -323,6 +332,10 @@ def run(tier: str, seed: int):
         for g in enum_closed(n):
             for pre in (False, True):
                 units.append((g, pre, depth, maxk))
+    # "all graphs": blocks with three successors, several of them in S at once (outside the closed-CFG input domain of the
+    # pipeline, inside the domain of the edit primitives)
+    for g in WIDE:
+        units.append((g, False, 1 if tier == "quick" else 2, 3))
     acc = Acc()
     for r in shard_map(_work, rotate(units, seed)):
         acc.merge(r)
